@@ -176,7 +176,7 @@ Create HintDb pegen.
   pe_dd4_start_64 pe_dd4_end pe_optmagic_len pe_no_room_32 pe_no_room_64 pe_sectbl_start pe_pos_ddcert pe_hashes_before_cksum
   pe_hashes_between pe_hashes_after_dd4 pe_sectbl_size pe_sectbl_end pe_table_overlaps_hdr pe_rs_skip_empty pe_sec_overlaps_table
   pe_sec_before_hdr_end pe_sec_not_last pe_hdr_shrinks_to_section pe_aligns_mid_sections pe_hdr_padding_len pe_align_rem
-  pe_align_needed pe_align_adds pe_has_gap pe_gap_len pe_dg_skip_empty pe_sec_not_contiguous pe_next_advances pe_pad_rem
+  pe_align_zero pe_align_needed pe_align_adds pe_has_gap pe_gap_len pe_dg_skip_empty pe_sec_not_contiguous pe_next_advances pe_pad_rem
   pe_pad_needed pe_pad_len pe_certstart_padded pe_tr_unsigned pe_tr_sig_overlaps pe_tr_garbage pe_tr_orig_unsigned
   pe_tr_orig_signed pe_tr_before_cert pe_mp_padded pe_mp_length pe_mp_revision pe_mp_certtype pe_certinfo_w_Length
   pe_certinfo_w_Revision pe_certinfo_w_CertificateType pe_mp_pad2 pe_mp_has_pad2 pe_mp_too_big pe_mp_dd_va pe_mp_dd_size
@@ -313,7 +313,7 @@ Lemma wrap32_nonneg n : 0 <= wrap32 n.
 Proof. unfold wrap32. pose proof (Z.mod_pos_bound n 4294967296). lia. Qed.
 Lemma align32_nonneg a al : 0 <= a -> 0 <= align32 a al.
 Proof.
-  intros H. unfold align32. destruct (pe_align_needed _); [|exact H].
+  intros H. unfold align32. destruct (pe_align_zero _); [exact H|]. destruct (pe_align_needed _); [|exact H].
   change pe_align_adds with true. cbv iota. apply wrap32_nonneg.
 Qed.
 
